@@ -115,10 +115,12 @@ def coordinateDescent (contig : Bool) (eps : α) (C : List (List α)) (y : List 
   cdLoop contig eps (n * l1r * pen) (n * (1 - l1r) * pen) C norms y n tol (tol * dotU y y) l1r pen maxSteps
     maxSteps 0 (List.replicate C.length 0) y (1 + tol)
 
-/-- `compute_intercept` for a 1-D target: `(mean, y - mean)` or `(0, y)` -/
+/-- `compute_intercept` for a 1-D target: `(mean, y - mean)` or `(0, y)`; `mean_axis` of a contiguous
+1-D array is ndarray's unrolled `sum` divided by `n` (a strided target view would be summed
+sequentially: not modelled) -/
 def computeIntercept (withIntercept : Bool) (y : List α) (n : α) : α × List α :=
   if withIntercept then
-    let m := sumS y / n
+    let m := sumU y / n
     (m, y.map (· - m))
   else (0, y)
 
@@ -128,6 +130,49 @@ def fitEnet (contig : Bool) (eps : α) (C : List (List α)) (y : List α) (n tol
   let (b, yc) := computeIntercept withIntercept y n
   let (w, g, s) := coordinateDescent contig eps C yc n tol maxSteps l1r pen
   (b, w, g, s)
+
+/-! ### the glue around the solver: parameter sets, constructors, `ParamGuard`, `predict` -/
+
+/-- `ElasticNetValidParamsBase` (the same struct serves the single- and the multi-task estimator) -/
+structure EnetParams (α : Type) where
+  penalty : α
+  l1Ratio : α
+  withIntercept : Bool
+  maxIterations : Nat
+  tolerance : α
+
+/-- `ElasticNetParamsBase::new()`; `tol0` is `F::cast(1e-4)` -/
+def EnetParams.new (tol0 : α) : EnetParams α :=
+  { penalty := 1, l1Ratio := half, withIntercept := true, maxIterations := 1000, tolerance := tol0 }
+
+/-- `ElasticNet::ridge()` / `MultiTaskElasticNet::ridge()` : `new().l1_ratio(0)` -/
+def EnetParams.ridge (tol0 : α) : EnetParams α := { EnetParams.new tol0 with l1Ratio := 0 }
+
+/-- `ElasticNet::lasso()` / `MultiTaskElasticNet::lasso()` : `new().l1_ratio(1)` -/
+def EnetParams.lasso (tol0 : α) : EnetParams α := { EnetParams.new tol0 with l1Ratio := 1 }
+
+inductive ParamError where
+  | invalidPenalty | invalidL1Ratio | invalidTolerance
+  deriving DecidableEq, Repr
+
+/-- `ParamGuard::check_ref` (`is_negative` read as `< 0`: `-0.0` and NaN are not modelled) -/
+def EnetParams.check (p : EnetParams α) : Except ParamError (EnetParams α) :=
+  if p.penalty < 0 then .error .invalidPenalty
+  else if ¬ (0 ≤ p.l1Ratio ∧ p.l1Ratio ≤ 1) then .error .invalidL1Ratio
+  else if p.tolerance < 0 then .error .invalidTolerance
+  else .ok p
+
+/-- `ElasticNetParams::fit` = `check` then `ElasticNetValidParams::fit` -/
+def fitParams (contig : Bool) (eps : α) (C : List (List α)) (y : List α) (n : α) (p : EnetParams α) :
+    Except ParamError (α × List α × α × Nat) :=
+  match p.check with
+  | .error e => .error e
+  | .ok q => .ok (fitEnet contig eps C y n q.tolerance q.maxIterations q.l1Ratio q.penalty q.withIntercept)
+
+/-- `predict`: `x.dot(&hyperplane) + intercept`, row by row (`rowContig`: the rows of `x` are
+contiguous, i.e. `x` is in standard layout) -/
+def predict (rowContig : Bool) (rows : List (List α)) (w : List α) (b : α) : List α :=
+  rows.map fun row => dotC rowContig row w + b
 
 /-! ### the documented objective (used by the theorems and by the `obj` correspondence) -/
 
@@ -202,13 +247,18 @@ def bcdSweepGo (contig : Bool) (t : Nat) (eps thr denAdd : α) :
       bcdSweepGo contig t eps thr denAdd (j + 1) C ns (bcdCoord contig t eps thr denAdd st j c nrm)
   | _, _, _, st => st
 
+/-- `dual_norm_xta` of `duality_gap_mtl`: the largest row norm of `XᵀR − l2·W` -/
+def dualNormMtl (t : Nat) (C : List (List α)) (W R : List (List α)) (l2 : α) : α :=
+  let rc := colsOf t R
+  let xta := List.zipWith (fun c wj => List.zipWith (fun rk wjk => dotS c rk - wjk * l2) rc wj) C W
+  normMax (xta.map norm2U)
+
 /-- `duality_gap_mtl` (`W` : p rows of t, `R`,`Y` : n rows of t) -/
 def dualityGapMtl (t : Nat) (C : List (List α)) (Y W R : List (List α)) (l1r pen n : α) : α :=
   let l1 := l1r * pen * n
   let l2 := (1 - l1r) * pen * n
   let rc := colsOf t R
-  let xta := List.zipWith (fun c wj => List.zipWith (fun rk wjk => dotS c rk - wjk * l2) rc wj) C W
-  let dn := normMax (xta.map norm2U)
+  let dn := dualNormMtl t C W R l2
   let rn := sumS (R.flatten.map fun x => x * x)
   let wn := sumS (W.flatten.map fun x => x * x)
   let cg : α × α :=
@@ -241,6 +291,42 @@ def blockCoordinateDescent (contig : Bool) (t : Nat) (eps : α) (C : List (List 
   bcdLoop contig t eps (n * l1r * pen) (n * (1 - l1r) * pen) C norms Y n tol
     (tol * sumS (Y.flatten.map fun x => x * x)) l1r pen maxSteps
     maxSteps 0 (List.replicate C.length (List.replicate t 0)) Y (1 + tol)
+
+/-- `compute_intercept` for a 2-D target (`Y` : n rows of t): `mean_axis(Axis(0))` adds the rows one
+after the other and divides by `n`; the centred target is `Y − mean` row by row -/
+def computeInterceptMtl (withIntercept : Bool) (t : Nat) (Y : List (List α)) (n : α) :
+    List α × List (List α) :=
+  if withIntercept then
+    let m := (colsOf t Y).map fun c => sumS c / n
+    (m, Y.map fun row => List.zipWith (· - ·) row m)
+  else (List.replicate t 0, Y)
+
+/-- `MultiTaskElasticNetValidParams::fit` = `(intercept, hyperplane, duality_gap, n_steps)` -/
+def fitMtl (contig : Bool) (t : Nat) (eps : α) (C : List (List α)) (Y : List (List α)) (n tol : α)
+    (maxSteps : Nat) (l1r pen : α) (withIntercept : Bool) : List α × List (List α) × α × Nat :=
+  let (b, Yc) := computeInterceptMtl withIntercept t Y n
+  let (w, g, s) := blockCoordinateDescent contig t eps C Yc n tol maxSteps l1r pen
+  (b, w, g, s)
+
+/-- `MultiTaskElasticNetParams::fit` = `check` then the fit -/
+def fitParamsMtl (contig : Bool) (t : Nat) (eps : α) (C : List (List α)) (Y : List (List α)) (n : α)
+    (p : EnetParams α) : Except ParamError (List α × List (List α) × α × Nat) :=
+  match p.check with
+  | .error e => .error e
+  | .ok q => .ok (fitMtl contig t eps C Y n q.tolerance q.maxIterations q.l1Ratio q.penalty q.withIntercept)
+
+/-- multi-task `predict`: `x.dot(&W) + &b` (gemm: each entry is `Σ_j x_ij·W_jk` then `+ b_k`) -/
+def predictMtl (t : Nat) (rows : List (List α)) (W : List (List α)) (b : List α) : List (List α) :=
+  rows.map fun row => List.zipWith (fun wc bk => dotS row wc + bk) (colsOf t W) b
+
+/-- the multi-task documented objective times `n`:
+`½‖Y − XW − 1bᵀ‖²_F + n·pen·(ρ‖W‖₂,₁ + (1−ρ)/2·‖W‖²_F)`; `C` columns of `X`, `Yc` columns of `Y`,
+`Wc` columns of `W` (one coefficient vector per task), `Wr` its rows (one group per feature) -/
+def objectiveMtl (C : List (List α)) (Yc Wc : List (List α)) (Wr : List (List α)) (b : List α) (l1r pen n : α) : α :=
+  let sq := sumS (List.zipWith (fun (yw : List α × List α) bk => let r := residual C yw.1 yw.2 bk; dotS r r)
+    (List.zip Yc Wc) b)
+  half * sq + (l1r * pen * n) * sumS (Wr.map norm2U)
+    + half * ((1 - l1r) * pen * n) * sumS (Wc.map fun w => dotS w w)
 
 end
 
